@@ -163,7 +163,7 @@ var slotTemplates = []template{
 			"return r(a) + 1", "return func() { return r(a) }()", "defer func() { r(a) }()", "for { r(a) }", "return '{r(a)}'", "return {\"k\": r(a)}",
 			"return [r(a)]", "return r(r(a))", "defer r(a); defer r(a)", "return r2(a) }\nfunc r2(a) { defer r(a)", "return y.each(func(k, v) { r(a) })"},
 		{"}\n"},
-		{"r(1)", "try(func() { r(1) })", "[1].map(r)", "x.each(r)", "func() { defer r(1) }()", "1 | r", "try(func() { r(1) }, func(e) { return r(2) })",
+		{"0", "r(1)", "try(func() { r(1) })", "[1].map(r)", "x.each(r)", "func() { defer r(1) }()", "1 | r", "try(func() { r(1) }, func(e) { return r(2) })",
 			"l := []\nl.append(l.each)\nl.each(l.each)", "l := []\nl.append(l.map)\nl.map(l.map)", "l := []\nl.append(l.filter)\nl.filter(l.filter)",
 			"l := []\nl.append(l.each)\ncall(l.each, l.each)", "l := []\nl.append(l.map)\nl.each(l.map)"}}},
 	{"incdec", [][]string{
